@@ -116,6 +116,56 @@ Proof.
   split; [discriminate|]. apply groups_of_individuals_spec. exact H.
 Qed.
 
+(* ---- the default: all individuals referred to by sample nodes, by increasing id ---- *)
+
+Fixpoint strictly_sorted (l : list Z) : Prop :=
+  match l with
+  | [] => True
+  | x :: t => match t with [] => True | y :: _ => x < y end /\ strictly_sorted t
+  end.
+
+Lemma insert_unique_in : forall x y l, In y (insert_unique x l) <-> y = x \/ In y l.
+Proof.
+  intros x y; induction l as [|h t IH]; cbn; [intuition|].
+  destruct (x <? h) eqn:E1; [cbn; intuition|].
+  destruct (x =? h) eqn:E2; [apply Z.eqb_eq in E2; subst; cbn; intuition|].
+  cbn. rewrite IH. intuition.
+Qed.
+
+Lemma insert_unique_sorted : forall x l, strictly_sorted l -> strictly_sorted (insert_unique x l).
+Proof.
+  intros x; induction l as [|h t IH]; intros H; [cbn; auto|].
+  cbn [insert_unique]. destruct (x <? h) eqn:E1.
+  - apply Z.ltb_lt in E1. cbn. cbn in H. intuition.
+  - destruct (x =? h) eqn:E2; [exact H|].
+    apply Z.ltb_ge in E1. apply Z.eqb_neq in E2.
+    cbn in H. destruct H as [H1 H2]. specialize (IH H2).
+    cbn [strictly_sorted]. split; [|exact IH].
+    destruct t as [|y t']; cbn [insert_unique].
+    + lia.
+    + destruct (x <? y); [lia|]. destruct (x =? y); [exact H1|exact H1].
+Qed.
+
+Theorem unique_sorted_spec : forall l,
+  strictly_sorted (unique_sorted l) /\ (forall y, In y (unique_sorted l) <-> In y l).
+Proof.
+  induction l as [|x l [IH1 IH2]]; [split; [exact I|intuition]|].
+  unfold unique_sorted in *. cbn [fold_right]. split.
+  - apply insert_unique_sorted. exact IH1.
+  - intros y. rewrite insert_unique_in, IH2. cbn. intuition.
+Qed.
+
+(* individuals=None and the samples refer to individuals (none to NULL, which would sort
+   first): the layout is that of the sorted distinct individual ids *)
+Theorem mapping_default_individuals : forall nodes ni u0 us,
+  unique_sorted (map (node_individual nodes) (sample_ids nodes)) = u0 :: us -> u0 <> -1 ->
+  make_sample_mapping nodes ni None None = groups_of_individuals nodes ni (u0 :: us).
+Proof.
+  intros nodes ni u0 us Hu Hn. unfold make_sample_mapping. rewrite andb_false_r.
+  fold (node_individual nodes). rewrite Hu.
+  apply Z.eqb_neq in Hn. destruct us; rewrite Hn; reflexivity.
+Qed.
+
 (* ---- header ---- *)
 
 Lemma default_names_length : forall n, length (default_names n) = n.
